@@ -87,15 +87,38 @@ def ensure_harness(fresh_tables=False):
     log("harness: built in %.1fs" % (time.time() - t0))
 
 
+class HarnessCrash(ToolError):
+    """the harness process was killed by a signal (e.g. a stack overflow inside the code under test);
+    .marker is what it was doing"""
+    marker = None
+
+
 def harness(args, timeout=3600, parse=True, env=None):
     e = dict(os.environ)
     if env:
         e.update(env)
+    marker = os.path.join(WORK, "marker_%d_%d.json" % (os.getpid(), id(args) % 100000))
+    e["VERIF_MARKER"] = marker
+    if os.path.exists(marker):
+        os.unlink(marker)
     try:
         p = subprocess.run([HARNESS] + [str(a) for a in args], stdout=subprocess.PIPE, stderr=subprocess.PIPE,
                            text=True, timeout=timeout, env=e)
     except subprocess.TimeoutExpired:
         raise ToolError("harness %s timed out after %ss" % (args[0], timeout))
+    mk = None
+    if os.path.exists(marker):
+        try:
+            mk = json.load(open(marker))
+        except Exception:
+            mk = None
+        os.unlink(marker)
+    if p.returncode < 0 and mk is not None:
+        ex = HarnessCrash("harness %s was killed by signal %d while: %s\n%s" % (args[0], -p.returncode, mk, p.stderr[-500:]))
+        ex.marker = mk
+        ex.signal = -p.returncode
+        ex.stderr = p.stderr[-500:]
+        raise ex
     if p.returncode != 0:
         raise ToolError("harness %s failed (exit %s): %s" % (" ".join(map(str, args[:3])), p.returncode, p.stderr[-2000:]))
     if not parse:
